@@ -216,9 +216,18 @@ def run_optable(ctx, rep_, F):
                 l = op_local(rv["ops"][0])
                 if l is None:
                     continue
-                src = [d for d in rules.defs_of(f, rules.place_base_chain(f, l)) if d[0] == "assign" and "agg" in d[4]]
+                base = rules.place_base_chain(f, l)
+                src = [d for d in rules.defs_of(f, base) if d[0] == "assign" and "agg" in d[4]]
                 if any(d[4]["agg"].get("v") == "Some" for d in src):
                     boxed.append((f, s))
+                else:
+                    # Optional(x.map(Box::new)) and friends: the payload is the result of a call that can be Some(box).  A payload that is
+                    # copied from another Optional's payload (clone / move of an existing value) builds no *new* representation.
+                    calls_ = [d[4] for d in rules.defs_of(f, base) if d[0] == "call"]
+                    if any(c_.matches(("core::option::Option<T>::map", "core::option::Option::<T>::map", "core::option::Option<T>::and_then",
+                                       "core::option::Option::<T>::and_then", "core::option::Option<T>::then", "core::option::Option<T>::map_or"))
+                           or mir.short(c_.callee()) in ("Option::<T>::map", "Option<T>::map", "Option::<T>::and_then") for c_ in calls_):
+                        boxed.append((f, s))
     probes = [("Add", ("Opt", "Int"), "Int"), ("lt", ("Opt", "Int"), "Int"), ("Sub", "Float", ("Opt", "Float"))]
     looks_through = all(all(not (x[0] in ("Err", "Panic") and not x[2]) for x in T.runtime(o, a, b)) for o, a, b in probes)
     if not boxed:
